@@ -145,7 +145,9 @@ func genC02(t *rapid.T) C02Case {
 			st.Doc = rapid.IntRange(0, 1).Draw(t, "doc")
 		}
 		d := st.Doc
-		switch rapid.IntRange(0, 10).Draw(t, "kind") {
+		switch rapid.IntRange(0, 11).Draw(t, "kind") {
+		case 11:
+			st.Kind = "folders" // the folder `sub` is added to / removed from the workspace folders while documents are open
 		case 10:
 			st.Kind = "config" // the user changes a setting while documents are open
 		case 0:
@@ -214,6 +216,7 @@ func checkC02(c C02Case, env *Env) *Violation {
 	}
 	getdoc()
 	nontrivial := false
+	subAdded := false
 	for _, st := range c.Steps {
 		d := st.Doc
 		if d < 0 || d >= ndocs {
@@ -237,6 +240,15 @@ func checkC02(c C02Case, env *Env) *Violation {
 			set := harness.J(harness.M{"settings": harness.M{"luahelper": harness.M{"base": harness.M{"ReferenceMaxNum": 3000, "ReferenceIncudeDefine": true}, "Warn": warn}}})
 			add(proto.Step{Op: "notify", Method: "workspace/didChangeConfiguration", Params: set})
 			add(proto.Step{Op: "notify", Method: "workspace/didChangeConfiguration", Params: set})
+		case "folders":
+			ev := harness.M{"added": []harness.M{}, "removed": []harness.M{}}
+			key := "added"
+			if subAdded {
+				key = "removed"
+			}
+			ev[key] = []harness.M{{"uri": harness.URI("sub"), "name": "sub"}}
+			subAdded = !subAdded
+			add(proto.Step{Op: "notify", Method: "workspace/didChangeWorkspaceFolders", Params: harness.J(harness.M{"event": ev})})
 		case "reopen":
 			add(harness.DidClose(rel))
 			text[d] = saved[d]
